@@ -39,7 +39,7 @@ AllFired == Live => R.fired = R.shots /\ R.answered = R.shots
 Ext == R.ammo \o SubSeq(R.ammo, 1, R.inst - 1)
 CountIn(x, n) == Cardinality({j \in 1..n : Ext[j] = x})
 Letters == {Ext[j] : j \in 1..Len(Ext)}
-First == IF R.gun \in {"http", "http2", "connect", "grpc"} THEN "" ELSE "a"
+First == IF R.gun \in {"http", "https", "http2", "connect", "grpc"} THEN "" ELSE "a"
 StepName(k, n) == IF k = 1 THEN First ELSE "b"
 ShotsWith(x) == Cardinality({j \in 1..Len(R.samples) : R.samples[j].letter = x /\ R.samples[j].step = First})
 
@@ -55,9 +55,18 @@ SamplesOK == Live =>
              n == ShotsWith(x)
              mine == {j \in 1..Len(R.samples) : R.samples[j].letter = x}
          IN /\ n <= CountIn(x, R.shots + R.inst - 1)
-            /\ Cardinality(mine) = n * Len(exp)
-            /\ \A k \in 1..Len(exp) :
-                 Cardinality({j \in mine : R.samples[j].step = StepName(k, Len(exp)) /\ Matches(R.samples[j], exp[k])}) = n
+            /\ IF x.l \in TlsShare
+               THEN \* the letter hits a share of the handshakes: every request of the run either fails like the letter
+                    \* says or is answered with a plain 200; a shot ends at its first failed step
+                    LET ok == Outcome(R.gun, StatusLetter(200), R.posts)
+                        fits(j, k) == R.samples[j].step = StepName(k, 2) /\
+                                      (Matches(R.samples[j], exp[1]) \/ Matches(R.samples[j], ok[k]))
+                    IN /\ \A j \in mine : \E k \in 1..Len(ok) : fits(j, k)
+                       /\ Len(ok) = 2 => Cardinality({j \in mine : R.samples[j].step = "b"})
+                            = Cardinality({j \in mine : R.samples[j].step = First /\ ~R.samples[j].err})
+               ELSE /\ Cardinality(mine) = n * Len(exp)
+                    /\ \A k \in 1..Len(exp) :
+                         Cardinality({j \in mine : R.samples[j].step = StepName(k, Len(exp)) /\ Matches(R.samples[j], exp[k])}) = n
 \* var/header modifiers, enumerated: one scenario per (a, b) of SubstrCases(value length) plus a few chains of the
 \* other modifiers; step b echoes the captured value to the target.  The whole enumerated space was exercised, every
 \* capture produced SOME value (the run went on), and where the semantics are pinned it is the expected substring.
